@@ -35,9 +35,16 @@ structure AState where
 @[reducible] def BM (W : Nat) : Int := 2 ^ W
 @[reducible] def AM (W : Nat) : Int := 2 ^ (2 * W)
 
+/-! ### Boolean comparisons (named, so that rewriting their arguments never has to touch a
+`Decidable` instance) -/
+
+def geB (a b : Int) : Bool := decide (a ≥ b)
+def ltB (a b : Int) : Bool := decide (a < b)
+def eqB (a b : Int) : Bool := decide (a = b)
+
 /-! ### status flags -/
 
-def flag (p : Int) (k : Nat) : Bool := decide (p / 2 ^ k % 2 = 1)
+def flag (p : Int) (k : Nat) : Bool := eqB (p / 2 ^ k % 2) 1
 
 def setFlag (p : Int) (k : Nat) (b : Bool) : Int :=
   p - (p / 2 ^ k % 2) * 2 ^ k + (if b then 2 ^ k else 0)
@@ -56,7 +63,7 @@ def normP (p : Int) : Int := setFlag (setFlag p bitB true) bitU true
 
 /-- N from the top bit of a `W`-bit value, Z from its being zero. -/
 def setNZ (W : Nat) (p v : Int) : Int :=
-  setFlag (setFlag p (bitN W) (decide (v ≥ 2 ^ (W - 1)))) bitZ (decide (v = 0))
+  setFlag (setFlag p (bitN W) (geB v (2 ^ (W - 1)))) bitZ (eqB v 0)
 
 /-- Two's-complement reading of a `W`-bit value. -/
 def signed (W : Nat) (b : Int) : Int := if b < 2 ^ (W - 1) then b else b - 2 ^ W
@@ -110,21 +117,21 @@ def addBin (W : Nat) (a m : Int) (c : Bool) : Int × Bool × Bool :=
   let ci : Int := if c then 1 else 0
   let sum := a + m + ci
   let ssum := signed W a + signed W m + ci
-  (sum % BM W, decide (sum ≥ BM W), decide (ssum < -(2 ^ (W - 1)) ∨ ssum ≥ 2 ^ (W - 1)))
+  (sum % BM W, geB sum (BM W), ltB ssum (-(2 ^ (W - 1))) || geB ssum (2 ^ (W - 1)))
 
 /-- Binary subtract with borrow (`C` clear = borrow): `a - m - (1 - c)`. -/
 def subBin (W : Nat) (a m : Int) (c : Bool) : Int × Bool × Bool :=
   let bi : Int := if c then 0 else 1
   let diff := a - m - bi
   let sdiff := signed W a - signed W m - bi
-  (diff % BM W, decide (diff ≥ 0), decide (sdiff < -(2 ^ (W - 1)) ∨ sdiff ≥ 2 ^ (W - 1)))
+  (diff % BM W, geB diff 0, ltB sdiff (-(2 ^ (W - 1))) || geB sdiff (2 ^ (W - 1)))
 
 def setCV (W : Nat) (p : Int) (c v : Bool) : Int :=
   setFlag (setFlag p bitC c) (bitV W) v
 
 /-- Compare: C = reg ≥ m, N/Z from the `W`-bit difference. -/
 def cmpFlags (W : Nat) (p reg m : Int) : Int :=
-  setNZ W (setFlag p bitC (decide (reg ≥ m))) ((reg - m) % BM W)
+  setNZ W (setFlag p bitC (geB reg m)) ((reg - m) % BM W)
 
 /-! ### one instruction -/
 
@@ -135,10 +142,10 @@ def resetVector : Int := 0xFFFC
 /-- The read-modify-write result and carry of the shift/rotate/inc/dec group. -/
 def rmw (W : Nat) (mn : Mn) (v : Int) (cin : Bool) : Int × Option Bool :=
   match mn with
-  | .ASL => ((v * 2) % BM W, some (decide (v ≥ 2 ^ (W - 1))))
-  | .LSR => (v / 2, some (decide (v % 2 = 1)))
-  | .ROL => ((v * 2 + (if cin then 1 else 0)) % BM W, some (decide (v ≥ 2 ^ (W - 1))))
-  | .ROR => (v / 2 + (if cin then 2 ^ (W - 1) else 0), some (decide (v % 2 = 1)))
+  | .ASL => ((v * 2) % BM W, some (geB v (2 ^ (W - 1))))
+  | .LSR => (v / 2, some (eqB (v % 2) 1))
+  | .ROL => ((v * 2 + (if cin then 1 else 0)) % BM W, some (geB v (2 ^ (W - 1))))
+  | .ROR => (v / 2 + (if cin then 2 ^ (W - 1) else 0), some (eqB (v % 2) 1))
   | .INC => ((v + 1) % BM W, none)
   | .DEC => ((v - 1) % BM W, none)
   | _ => (v, none)
@@ -175,7 +182,7 @@ def exec (W : Nat) (v : Variant) (mn : Mn) (mo : Mode) (s : AState) : AState :=
   | .ORA => let r := Py.lor s.a m; { s with a := r, p := setNZ W s.p r, pc := np }
   | .EOR => let r := Py.lxor s.a m; { s with a := r, p := setNZ W s.p r, pc := np }
   | .BIT =>
-    let pz := setFlag s.p bitZ (decide (Py.land s.a m = 0))
+    let pz := setFlag s.p bitZ (eqB (Py.land s.a m) 0)
     match mo with
     | .imm => { s with p := pz, pc := np }
     | _ => { s with p := setFlag (setFlag pz (bitN W) (flag m (bitN W))) (bitV W) (flag m (bitV W)),
@@ -198,9 +205,9 @@ def exec (W : Nat) (v : Variant) (mn : Mn) (mo : Mode) (s : AState) : AState :=
     | .acc => { s with a := r, p := p2, pc := np }
     | _ => { write s e r with p := p2, pc := np }
   | .TSB => { write s e (Py.lor m s.a) with
-              p := setFlag s.p bitZ (decide (Py.land s.a m = 0)), pc := np }
+              p := setFlag s.p bitZ (eqB (Py.land s.a m) 0), pc := np }
   | .TRB => { write s e (m - Py.land m s.a) with
-              p := setFlag s.p bitZ (decide (Py.land s.a m = 0)), pc := np }
+              p := setFlag s.p bitZ (eqB (Py.land s.a m) 0), pc := np }
   | .RMB b => { write s e (m - (m / 2 ^ b % 2) * 2 ^ b) with pc := np }
   | .SMB b => { write s e (m - (m / 2 ^ b % 2) * 2 ^ b + 2 ^ b) with pc := np }
   -- register transfers, increments
